@@ -3,6 +3,7 @@ package props
 import (
 	"go/ast"
 	"go/constant"
+	"go/token"
 	"go/types"
 	"sort"
 	"strings"
@@ -34,6 +35,14 @@ func init() {
 		Mutants: []Mutant{
 			{Name: "embedded-generic-args-dropped", File: "unused/unused.go", Rule: "R7.1", KeyPart: "embeddedField/*ast.IndexListExpr.Indices",
 				Old: "\t\t\tnode = node_.X\n\t\t\tfor _, index := range node_.Indices {\n\t\t\t\tnodes = append(nodes, index)\n\t\t\t}\n", New: "\t\t\tnode = node_.X\n"},
+			{Name: "local-types-not-in-namedTypes", File: "unused/unused.go", Rule: "R7.5", KeyPart: "every-defined-type-in-namedTypes",
+				Old: "\t\t\t\tif !tspec.Assign.IsValid() {\n", New: "\t\t\t\tif !tspec.Assign.IsValid() && isGlobal(obj) {\n"},
+			{Name: "single-method-interfaces-not-collected", File: "unused/unused.go", Rule: "R7.5", KeyPart: "every-interface-literal",
+				Old: "\t\tif len(node.Methods.List) != 0 {\n\t\t\tg.interfaceTypes", New: "\t\tif len(node.Methods.List) > 1 {\n\t\t\tg.interfaceTypes"},
+			{Name: "pointer-method-set-not-processed", File: "unused/unused.go", Rule: "R7.5", KeyPart: "processes-every-named-type",
+				Old: "\t\tprocessMethodSet(named, types.NewMethodSet(types.NewPointer(named.Type())))\n", New: ""},
+			{Name: "only-generic-free-interfaces-tested", File: "unused/unused.go", Rule: "R7.5", KeyPart: "tests-every-collected-interface",
+				Old: "\tfor _, typ := range g.interfaceTypes {\n\t\tallInterfaces[typ] = struct{}{}\n\t}", New: "\tfor _, typ := range g.interfaceTypes {\n\t\tif typ.NumEmbeddeds() == 0 {\n\t\t\tallInterfaces[typ] = struct{}{}\n\t\t}\n\t}"},
 			{Name: "slice-max-not-read", File: "unused/unused.go", Rule: "R7.1", KeyPart: "read/*ast.SliceExpr.Max",
 				Old: "\t\tg.read(node.High, by)\n\t\tg.read(node.Max, by)\n", New: "\t\tg.read(node.High, by)\n"},
 			{Name: "func-results-not-read", File: "unused/unused.go", Rule: "R7.1", KeyPart: "read/*ast.FuncType.Results",
@@ -414,5 +423,209 @@ func runC07(c *Ctx) {
 			return in == start
 		}, isAppend, nil)
 		c.Check(FuncKey(res)+"::every-node-classified", res.Pos(), t == nil && len(fields) == 3, "every node of the graph ends up in exactly one of Used, Quiet or Unused (lists fed: %v); a node that falls through is neither reported nor counted as used; path without classification: %s", SortedKeys(fields), PathString(res, path))
+	})
+	// R7.5: the deferred work lists. Edges that do not come from identifiers
+	// (promoted methods, interface satisfaction: rules 2.1, 6.3, 6.4, 8.2) are
+	// added by entry() for every type in g.namedTypes against every interface
+	// in g.interfaceTypes; a type or interface missing from its list gets none
+	// of them and its embedded fields/methods are reported although deleting
+	// them breaks the build.
+	c.Rule("R7.5", func() {
+		c.Floor("R7.5", 4)
+		decl := c.Func("unused", "(*graph).decl")
+		read := c.Func("unused", "(*graph).read")
+		entry := c.Func("unused", "(*graph).entry")
+		appendTo := func(fn *ssa.Function, field string) []ssa.Instruction {
+			var out []ssa.Instruction
+			Instrs(fn, false, func(in ssa.Instruction) {
+				st, ok := in.(*ssa.Store)
+				if ok && IsFieldOf("unused.graph", field)(st.Addr) {
+					out = append(out, st)
+				}
+			})
+			return out
+		}
+		isOneOf := func(list []ssa.Instruction) func(ssa.Instruction) bool {
+			return func(in ssa.Instruction) bool {
+				for _, x := range list {
+					if x == in {
+						return true
+					}
+				}
+				return false
+			}
+		}
+		// (a) every non-alias type declaration is appended to namedTypes
+		{
+			stores := appendTo(decl, "namedTypes")
+			var objCall *ssa.Call
+			for _, ci := range Calls(decl, false) {
+				if call, ok := ci.(*ssa.Call); ok && strings.HasSuffix(CalleeName(&call.Call), "types.Info.ObjectOf") && DerivesLocal(call.Call.Args[1], IsFieldOf("ast.TypeSpec", "Name")) {
+					if objCall == nil || InstrDominates(call, objCall) {
+						objCall = call
+					}
+				}
+			}
+			if objCall == nil || len(stores) == 0 {
+				c.Undecided("(*graph).decl no longer looks up the declared type name / appends to namedTypes")
+			}
+			// alias declarations (tspec.Assign.IsValid()) are the one legitimate way around the append
+			alias := CallTrueEdges(decl, func(call *ssa.Call) bool {
+				return strings.HasSuffix(CalleeName(&call.Call), "token.Pos.IsValid") && DerivesLocal(call.Call.Args[0], IsFieldOf("ast.TypeSpec", "Assign"))
+			})
+			t, path := PathAvoiding(decl, objCall, func(in ssa.Instruction) bool {
+				if _, ok := in.(*ssa.Return); ok {
+					return true
+				}
+				return in == ssa.Instruction(objCall)
+			}, isOneOf(stores), alias)
+			c.Check(FuncKey(decl)+"::every-defined-type-in-namedTypes", objCall.Pos(), t == nil && len(alias) > 0, "every declared non-alias type (package-level or local) must be appended to g.namedTypes: entry() adds the method-set and interface-satisfaction uses (2.1, 6.3, 6.4, 8.2) only for the types in that list; path around the append: %s", PathString(decl, path))
+		}
+		// (b) every interface type literal with methods is appended to interfaceTypes
+		{
+			stores := appendTo(read, "interfaceTypes")
+			var start ssa.Instruction
+			for _, b := range read.Blocks {
+				iff, ok := b.Instrs[len(b.Instrs)-1].(*ssa.If)
+				if !ok {
+					continue
+				}
+				e, ok := iff.Cond.(*ssa.Extract)
+				if !ok || e.Index != 1 {
+					continue
+				}
+				ta, ok := e.Tuple.(*ssa.TypeAssert)
+				if ok && strings.HasSuffix(ta.AssertedType.String(), "go/ast.InterfaceType") {
+					start = b.Succs[0].Instrs[0]
+				}
+			}
+			if start == nil || len(stores) == 0 {
+				c.Undecided("(*graph).read has no *ast.InterfaceType case / no append to interfaceTypes")
+			}
+			empty := CondEdges(read, func(cond ssa.Value) (bool, bool) {
+				bin, ok := cond.(*ssa.BinOp)
+				if !ok {
+					return false, false
+				}
+				isLen := func(v ssa.Value) bool {
+					call, ok := v.(*ssa.Call)
+					return ok && IsCallTo(call, "builtin.len") && DerivesLocal(call.Call.Args[0], IsFieldOf("ast.FieldList", "List"))
+				}
+				zero := func(v ssa.Value) bool { k, ok := ConstInt(v); return ok && k == 0 }
+				if !(isLen(bin.X) && zero(bin.Y)) {
+					return false, false
+				}
+				switch bin.Op {
+				case token.NEQ, token.GTR:
+					return true, false // the false edge is "no methods"
+				case token.EQL, token.LEQ:
+					return true, true
+				}
+				return false, false
+			})
+			t, path := PathAvoiding(read, start, func(in ssa.Instruction) bool {
+				_, ok := in.(*ssa.Return)
+				return ok
+			}, isOneOf(stores), empty)
+			if isOneOf(stores)(start) {
+				t = nil
+			}
+			c.Check(FuncKey(read)+"::every-interface-literal-in-interfaceTypes", start.Pos(), t == nil, "every interface type with methods must be appended to g.interfaceTypes (only the empty interface may be skipped): types are tested for implementing exactly the interfaces in that list (8.2, 6.3); path around the append: %s", PathString(read, path))
+		}
+		// (c) entry() processes every element of namedTypes, for T and *T
+		{
+			var loopLoads []ssa.Instruction
+			Instrs(entry, false, func(in ssa.Instruction) {
+				u, ok := in.(*ssa.UnOp)
+				if !ok || u.Op != token.MUL {
+					return
+				}
+				ia, ok := u.X.(*ssa.IndexAddr)
+				if ok && DerivesLocal(ia.X, IsFieldOf("unused.graph", "namedTypes")) {
+					loopLoads = append(loopLoads, u)
+				}
+			})
+			if len(loopLoads) != 1 {
+				c.Undecided("entry() should have exactly one loop over g.namedTypes (found %d element loads)", len(loopLoads))
+			}
+			elem := loopLoads[0].(*ssa.UnOp)
+			var ms []*ssa.Call // calls that receive a method set of the element
+			ptr, val := false, false
+			for _, ci := range Calls(entry, false) {
+				call, ok := ci.(*ssa.Call)
+				if !ok || call.Block() != elem.Block() && !elem.Block().Dominates(call.Block()) {
+					continue
+				}
+				if call.Call.StaticCallee() != nil && call.Call.StaticCallee().Parent() == entry || func() bool { _, isClosure := call.Call.Value.Type().Underlying().(*types.Signature); return isClosure && call.Call.StaticCallee() == nil && !call.Call.IsInvoke() }() {
+					args := call.Call.Args
+					if len(args) < 2 || !Derives(args[0], func(v ssa.Value) bool { return v == ssa.Value(elem) }) {
+						continue
+					}
+					for x := range BackSlice(args[1], SliceOpts{}) {
+						if nm, ok := x.(*ssa.Call); ok && CalleeName(&nm.Call) == "go/types.NewMethodSet" {
+							if Derives(nm.Call.Args[0], IsCallResult("go/types.NewPointer")) {
+								ptr = true
+							} else {
+								val = true
+							}
+							ms = append(ms, call)
+						}
+					}
+				}
+			}
+			var asInstr []ssa.Instruction
+			for _, m := range ms {
+				asInstr = append(asInstr, m)
+			}
+			ok := len(ms) >= 2 && ptr && val
+			why := ""
+			if ok {
+				// both calls on every path through the loop body
+				for _, m := range ms {
+					t, path := PathAvoiding(entry, elem, func(in ssa.Instruction) bool {
+						if _, isRet := in.(*ssa.Return); isRet {
+							return true
+						}
+						return in == ssa.Instruction(elem)
+					}, func(in ssa.Instruction) bool { return in == ssa.Instruction(m) }, nil)
+					if t != nil {
+						ok = false
+						why = "a path through the loop body skips the method-set processing: " + PathString(entry, path)
+					}
+				}
+			} else {
+				why = "the loop body must hand the method sets of both T and *T to the method-set processing"
+			}
+			c.Check(FuncKey(entry)+"::processes-every-named-type", elem.Pos(), ok, "entry() must process the method sets of T and *T for every element of g.namedTypes on every path: %s", why)
+		}
+		// (d) processMethodSet tests every collected interface: the set it ranges over receives every element of g.interfaceTypes
+		{
+			var elem *ssa.UnOp
+			Instrs(entry, false, func(in ssa.Instruction) {
+				u, ok := in.(*ssa.UnOp)
+				if !ok || u.Op != token.MUL {
+					return
+				}
+				if ia, ok := u.X.(*ssa.IndexAddr); ok && DerivesLocal(ia.X, IsFieldOf("unused.graph", "interfaceTypes")) {
+					elem = u
+				}
+			})
+			if elem == nil {
+				c.Undecided("entry() no longer ranges over g.interfaceTypes")
+			}
+			var updates []ssa.Instruction
+			Instrs(entry, false, func(in ssa.Instruction) {
+				if mu, ok := in.(*ssa.MapUpdate); ok && Derives(mu.Key, func(v ssa.Value) bool { return v == ssa.Value(elem) }) {
+					updates = append(updates, mu)
+				}
+			})
+			t, path := PathAvoiding(entry, elem, func(in ssa.Instruction) bool {
+				if _, isRet := in.(*ssa.Return); isRet {
+					return true
+				}
+				return in == ssa.Instruction(elem)
+			}, isOneOf(updates), nil)
+			c.Check(FuncKey(entry)+"::tests-every-collected-interface", elem.Pos(), len(updates) > 0 && t == nil, "every element of g.interfaceTypes must be put (unconditionally) into the set of interfaces that named types are tested against; path: %s", PathString(entry, path))
+		}
 	})
 }
